@@ -94,7 +94,11 @@ def handle : Handler
         "lnpy=" ++ toString (lastNewlinePy buf),
         "lines=" ++ outList hex (splitLines buf),
         "strip=" ++ hex (stripBytes buf),
-        "find=" ++ outBool (containsSub (45 :: 45 :: bnd) buf)])
+        "find=" ++ outBool (containsSub (45 :: 45 :: bnd) buf),
+        "rfind=" ++ (match rfindFrom (45 :: 45 :: bnd) buf 0 pos with | some p => toString p | none => "~"),
+        "nsp=" ++ (match searchDelimFrom bnd true pos buf with
+                   | none => toString (nextSearchPos bnd buf pos)
+                   | some _ => "~")])
     | _, _, _ => some badArgs
   | "mp.dataphase", [bnd, start, buf, chunks] =>
     match unhex bnd, boolArg start, unhex buf, listArg unhex chunks with
